@@ -75,3 +75,18 @@ Definition py_addr_str (a : Z * Z) : outcome string :=
   if fst a =? 4 then int_to_str4 (snd a) else Raise Unsupported.
 (* IPNetwork(ip) for an IPAddress object ip (what iprange_to_cidrs does with its arguments): the host network /width *)
 Definition py_net_of_addr (a : Z * Z) : net := {| nver := fst a; nval := snd a; nplen := width (fst a) |}.
+
+(* ---- the IPGlob class: slots, and the IPRange methods reached through super() (NOT translated: hand models) ---- *)
+(* reading a slot that may be unset: AttributeError *)
+Definition py_attr_get {A} (o : option A) : outcome A := match o with Some x => Ok x | None => Raise AttributeError end.
+(* IPRange.__init__(start, end) for two IPAddress objects: _start = IPAddress(start) (copy), _end = IPAddress(end, version of
+   start) (ValueError: the copy constructor cannot switch versions), then the ordering check; the new (_start, _end) *)
+Definition py_iprange_init (s e : Z * Z) : outcome ((Z * Z) * (Z * Z)) :=
+  if negb (fst e =? fst s) then Raise ValueError
+  else if snd s >? snd e then Raise AddrFormatError else Ok (s, e).
+(* IPRange.__getstate__(): (_start.value, _end.value, _module.version) *)
+Definition py_iprange_getstate (s e : Z * Z) : Z * Z * Z := (snd s, snd e, fst s).
+(* IPRange.__setstate__((start, end, version)): _start = IPAddress(start, version), _end = IPAddress(end, version) *)
+Definition py_iprange_setstate (st : Z * Z * Z) : outcome ((Z * Z) * (Z * Z)) :=
+  let '(s, e, ver) := st in
+  do a <- addr_of_int_ver s ver; do b <- addr_of_int_ver e ver; Ok (a, b).
